@@ -26,7 +26,7 @@ var issueToFinding = map[string]string{
 var compileErrToFinding = []struct{ pat, id string }{
 	{"undefined: netip", "K26-format-pointer-import"}, {"undefined: types", "K26-format-pointer-import"}, {"undefined: time", "K26-format-pointer-import"},
 	{"in argument to math.Mod", "K19-multipleOf-named-number"}, {"already declared", "K21-composite-definition"}, {"redeclared in this block", "K21-composite-definition"}, {"undefined: raw", "K24-addl-raw-undeclared"},
-	{"overflows", "K25-int-literal-overflow"}, {".UnmarshalJSON undefined", "K27-anyOf-ref-without-method"}, {".UnmarshalYAML undefined", "K27-anyOf-ref-without-method"},
+	{"overflows", "K25-int-literal-overflow"}, {"value in assignment", "K4-default-literal"}, {".UnmarshalJSON undefined", "K27-anyOf-ref-without-method"}, {".UnmarshalYAML undefined", "K27-anyOf-ref-without-method"},
 }
 
 var hostileTexts = []string{
